@@ -423,8 +423,14 @@ func Main(property, harness string, build func(tier string) []*Scenario) {
 		if len(want) > 0 && !want[i] {
 			continue
 		}
-		if *only != "" && !strings.Contains(sc.Name, *only) {
-			continue
+		if *only != "" { // comma-separated substrings: any of them
+			hit := false
+			for _, sub := range strings.Split(*only, ",") {
+				hit = hit || strings.Contains(sc.Name, sub)
+			}
+			if !hit {
+				continue
+			}
 		}
 		if *maxBound >= 0 {
 			var nb []int
